@@ -41,6 +41,9 @@ func main() {
 	repo := flag.String("repo", "/repo", "")
 	verif := flag.String("verif", "/verif", "")
 	out := flag.String("out", "", "")
+	extra := flag.String("extra", "", "comma-separated extra source files (dependency modules) to rewrite like repository files")
+	funcPoints := flag.Bool("funcpoints", false, "insert a scheduling point at the entry of every function of the repository's own packages")
+	racePool := flag.String("racepool", "", "GOROOT: overlay sync/pool.go without its race annotations (race-oracle builds)")
 	flag.Parse()
 	if *out == "" {
 		must(fmt.Errorf("-out required"))
@@ -101,6 +104,11 @@ func main() {
 			if err != nil {
 				return err
 			}
+			fpName = ""
+			if *funcPoints {
+				rel, _ := filepath.Rel(*repo, p)
+				fpName = filepath.Dir(rel)
+			}
 			newSrc, changed, err := rewrite(p, src)
 			if err != nil {
 				return fmt.Errorf("%s: %w", p, err)
@@ -121,7 +129,48 @@ func main() {
 			return nil
 		}))
 	}
+	for _, p := range strings.Split(*extra, ",") {
+		if p == "" {
+			continue
+		}
+		src, err := os.ReadFile(p)
+		if err != nil {
+			continue
+		}
+		newSrc, changed, err := rewrite(p, src)
+		must(err)
+		if !changed {
+			continue
+		}
+		dst := filepath.Join(*out, "rw", "dep", strings.ReplaceAll(strings.TrimPrefix(p, "/"), "/", "_"))
+		must(os.MkdirAll(filepath.Dir(dst), 0o755))
+		must(os.WriteFile(dst, newSrc, 0o644))
+		replace[p] = dst
+		rewritten = append(rewritten, p)
+	}
 	sort.Strings(rewritten)
+
+	// race-oracle builds: sync.Pool hands objects from one thread to the next and annotates that as a
+	// happens-before edge; under a serialising scheduler every fmt/bufio/json call would thereby order the
+	// threads and blind the race detector. Strip the two annotations (objects from pools are never accessed by
+	// repository code directly, and reports whose access sites are outside the repository are ignored).
+	if *racePool != "" {
+		pp := filepath.Join(*racePool, "src", "sync", "pool.go")
+		src, err := os.ReadFile(pp)
+		must(err)
+		t := string(src)
+		n1 := strings.Count(t, "race.ReleaseMerge(poolRaceAddr(x))")
+		n2 := strings.Count(t, "race.Acquire(poolRaceAddr(x))")
+		if n1 != 1 || n2 != 1 {
+			must(fmt.Errorf("sync/pool.go: unexpected shape (%d, %d)", n1, n2))
+		}
+		t = strings.Replace(t, "race.ReleaseMerge(poolRaceAddr(x))", "_ = poolRaceAddr(x)", 1)
+		t = strings.Replace(t, "race.Acquire(poolRaceAddr(x))", "_ = poolRaceAddr(x)", 1)
+		dst := filepath.Join(*out, "rw", "std", "sync", "pool.go")
+		must(os.MkdirAll(filepath.Dir(dst), 0o755))
+		must(os.WriteFile(dst, []byte(t), 0o644))
+		replace[pp] = dst
+	}
 
 	b, _ := json.MarshalIndent(map[string]any{"Replace": replace}, "", " ")
 	must(os.WriteFile(filepath.Join(*out, "overlay.json"), b, 0o644))
@@ -137,6 +186,9 @@ type rw struct {
 	changed    bool
 	n          int
 }
+
+// fpName: when non-empty, function-entry scheduling points are inserted (value = package directory)
+var fpName string
 
 var vtimeSyms = map[string]bool{"NewTicker": true, "Ticker": true, "Sleep": true, "After": true, "Tick": true}
 
@@ -183,6 +235,24 @@ func rewrite(path string, src []byte) ([]byte, bool, error) {
 	}
 	// go statements
 	r.walkBlocks(f)
+	// function-entry scheduling points
+	if fpName != "" {
+		for _, d := range f.Decls {
+			fd, ok := d.(*ast.FuncDecl)
+			if !ok || fd.Body == nil || fd.Name.Name == "init" {
+				continue
+			}
+			name := fpName + "." + fd.Name.Name
+			if fd.Recv != nil && len(fd.Recv.List) > 0 {
+				name = fpName + ".(" + exprString(fd.Recv.List[0].Type) + ")." + fd.Name.Name
+			}
+			call := &ast.ExprStmt{X: &ast.CallExpr{Fun: &ast.SelectorExpr{X: ast.NewIdent("zzvsched"), Sel: ast.NewIdent("FuncPoint")},
+				Args: []ast.Expr{&ast.BasicLit{Kind: token.STRING, Value: strconv.Quote(name)}}}}
+			fd.Body.List = append([]ast.Stmt{call}, fd.Body.List...)
+			r.needVsched = true
+			r.changed = true
+		}
+	}
 	if !r.changed {
 		return nil, false, nil
 	}
@@ -202,6 +272,18 @@ func rewrite(path string, src []byte) ([]byte, bool, error) {
 		out = append(out, []byte("\nvar _ = "+r.timeName+".Now\n")...)
 	}
 	return out, true, nil
+}
+
+func exprString(e ast.Expr) string {
+	switch t := e.(type) {
+	case *ast.StarExpr:
+		return "*" + exprString(t.X)
+	case *ast.Ident:
+		return t.Name
+	case *ast.IndexExpr:
+		return exprString(t.X)
+	}
+	return "?"
 }
 
 func usesIdent(f *ast.File, name string) bool {
